@@ -52,6 +52,9 @@ func execSrvSeq(line string) (string, bool) {
 	if t[0] == "connect" {
 		return execConnect(line)
 	}
+	if t[0] == "bufsess" {
+		return "accept", true // the observation is the line; the driver is the judge
+	}
 	parts := splitTok(t[1:], ";")
 	cfg := parts[0]
 	msize := uint32(atou(cfg[0], 32))
